@@ -16,6 +16,7 @@ import (
 	"bufio"
 	"bytes"
 	"crypto/sha1"
+	"encoding/base64"
 	"encoding/hex"
 	"fmt"
 	"os"
@@ -141,7 +142,18 @@ func unmarshalOut(wires [][]byte) []*rwp.OutboundMessage {
 	return ms
 }
 
-func runKind(kind string, input [][]byte) c06res {
+func runKind(kind string, input [][]byte) c06res { return runKindKeep(kind, input, nil) }
+
+// runKindKeep: as runKind; the decoders' result OBJECTS are also handed to keep as a function that digests
+// them again later - after other calls have run (seed C06-14: a pooled scratch buffer leaked into the
+// delivered image; the result is right when looked at immediately and changes under the holder's feet when
+// any other call decodes a graphics line)
+func runKindKeep(kind string, input [][]byte, keep func(late func() string)) c06res {
+	hold := func(f func() string) {
+		if keep != nil {
+			keep(f)
+		}
+	}
 	return guarded(func() c06res {
 		switch kind {
 		case "decin":
@@ -151,6 +163,7 @@ func runKind(kind string, input [][]byte) c06res {
 			}
 			ms := rwl.RawPanelASCIIstringsToInboundMessages(ls)
 			d, nils := digestIn(ms)
+			hold(func() string { d2, _ := digestIn(ms); return d2 })
 			return c06res{"ok", len(ms), nils, d}
 		case "decout":
 			ls := make([]string, len(input))
@@ -159,6 +172,7 @@ func runKind(kind string, input [][]byte) c06res {
 			}
 			ms := rwl.RawPanelASCIIstringsToOutboundMessages(ls)
 			d, nils := digestOut(ms)
+			hold(func() string { d2, _ := digestOut(ms); return d2 })
 			return c06res{"ok", len(ms), nils, d}
 		case "reader":
 			ar := &rwl.ASCIIreader{}
@@ -167,6 +181,7 @@ func runKind(kind string, input [][]byte) c06res {
 				all = append(all, ar.Parse(string(b))...)
 			}
 			d, nils := digestIn(all)
+			hold(func() string { d2, _ := digestIn(all); return d2 })
 			return c06res{"ok", len(all), nils, d}
 		case "encin":
 			ss := rwl.InboundMessagesToRawPanelASCIIstrings(unmarshalIn(input))
@@ -293,6 +308,40 @@ func runBatchInProcess(cases []c06case) {
 			sharedOut[i] = unmarshalOut(c.input)
 		}
 	}
+	// results held back: digested again after ALL calls of a phase have returned
+	type held struct {
+		i    int
+		late func() string
+	}
+	var heldMu sync.Mutex
+	var heldRes []held
+	keepFor := func(i int) func(func() string) {
+		return func(f func() string) {
+			heldMu.Lock()
+			heldRes = append(heldRes, held{i, f})
+			heldMu.Unlock()
+		}
+	}
+	recheckHeld := func(ref []c06res, bad []bool) {
+		heldMu.Lock()
+		defer heldMu.Unlock()
+		for _, h := range heldRes {
+			if ref[h.i].status != "ok" {
+				continue
+			}
+			func() {
+				defer func() {
+					if recover() != nil {
+						bad[h.i] = false
+					}
+				}()
+				if h.late() != ref[h.i].digest {
+					bad[h.i] = false
+				}
+			}()
+		}
+		heldRes = nil
+	}
 	run := func(i int) c06res {
 		c := cases[i]
 		switch c.kind {
@@ -309,7 +358,7 @@ func runBatchInProcess(cases []c06case) {
 				return c06res{"ok", len(ss), 0, digestStrings(sorted)}
 			})
 		}
-		return runKind(c.kind, c.input)
+		return runKindKeep(c.kind, c.input, keepFor(i))
 	}
 	inputIntact := func(i int) bool {
 		switch cases[i].kind {
@@ -348,6 +397,7 @@ func runBatchInProcess(cases []c06case) {
 		seq[i] = run(i)
 		conc[i] = seq[i].status != "ok" || inputIntact(i)
 	}
+	recheckHeld(seq, conc) // sequential history: an earlier result must still be what it was
 	var mu sync.Mutex
 	var wg sync.WaitGroup
 	for g := 0; g < 16 && skipped == 0; g++ {
@@ -369,6 +419,7 @@ func runBatchInProcess(cases []c06case) {
 		}(g)
 	}
 	wg.Wait()
+	recheckHeld(seq, conc) // ... and so must every result of the concurrent phase, after all of them returned
 	if skipped > 0 {
 		defer func() { out.Flush(); fmt.Fprintf(caseOut, "SKIPPED %d\n", skipped) }()
 	}
@@ -801,6 +852,41 @@ func genC06(tier string, rng *Rng) {
 		}
 		for _, kw := range []string{"HWC#", "map=", "Mem", "Flag#", "_heartBeatTimer=", "_sleepTimer="} {
 			add("decout", [][]byte{[]byte(kw + b), []byte(kw + b + "=Down"), []byte(kw + b + "." + b + "=Abs:" + b), []byte(kw + b + ":" + b), []byte(kw + "A=" + b)})
+		}
+	}
+	// images that fit ONE line (0/0), each with its own content, one per call and several per call, all
+	// three formats, also through the streaming reader: their results are held and looked at again after
+	// all other calls (runKindKeep)
+	for n := 0; n < 24; n++ {
+		data := bytes.Repeat([]byte{byte(n + 1)}, 16+n%5)
+		b64 := base64.StdEncoding.EncodeToString(data)
+		kw := []string{"HWCg", "HWCgGray", "HWCgRGB"}[n%3]
+		ln := fmt.Sprintf("%s#%d=0/0,16x8:%s", kw, 100+n, b64)
+		add("decin", [][]byte{[]byte(ln)})
+		add("reader", [][]byte{[]byte(ln)})
+		if n%4 == 0 {
+			add("decin", [][]byte{[]byte(ln), []byte(fmt.Sprintf("%s#%d=0/0,8x8,1,1:%s", kw, 200+n, base64.StdEncoding.EncodeToString(bytes.Repeat([]byte{byte(200 - n)}, 8))))})
+		}
+	}
+	// labels around typical buffer sizes, in BYTES and in CHARACTERS: ASCII of length L-1, L, L+1 and
+	// multi-byte texts that are longer than L bytes but shorter than L characters, for every text field of a
+	// text state and of the identity strings (seed C06-13: `len(label) <= 64` guards `[]rune(label)[:64]`)
+	for _, L := range []int{16, 32, 64, 128, 255, 256} {
+		var texts []string
+		for _, d := range []int{-1, 0, 1} {
+			texts = append(texts, strings.Repeat("a", L+d))
+		}
+		for _, ch := range []string{"\u00d8", "\u20ac", "\U0001F4A1", "e\u0301"} {
+			n := L/len(ch) + 1 // just over L bytes, well under L characters
+			texts = append(texts, strings.Repeat(ch, n), strings.Repeat(ch, L-1), strings.Repeat(ch, L), "x"+strings.Repeat(ch, n))
+		}
+		for k, tx := range texts {
+			mi := &rwp.InboundMessage{States: []*rwp.HWCState{{HWCIDs: []uint32{5}, HWCText: &rwp.HWCText{IntegerValue: 7, Title: tx, Textline1: texts[(k+1)%len(texts)], Textline2: texts[(k+2)%len(texts)], Formatting: 7}}}}
+			add("encin", [][]byte{mustWire(mi)})
+			mo := &rwp.OutboundMessage{PanelInfo: &rwp.PanelInfo{Model: tx, Serial: tx, Name: tx, SoftwareVersion: tx}, ErrorMessage: &rwp.Message{Message: tx}}
+			add("encout", [][]byte{mustWire(mo)})
+			add("decin", [][]byte{[]byte("HWCt#12=|||" + tx + "|1|" + tx)})
+			add("decout", [][]byte{[]byte("_name=" + tx), []byte("Msg=" + tx)})
 		}
 	}
 	// very long lines
